@@ -90,6 +90,16 @@ class Diagonalization(Function):
 
         # finally sum the two
         dL_dM = term1 + term2
-        output = tuple([None] * 6 + [dL_dM])
+
+        # dL_dM is the derivative w.r.t. the (dense) matrix: pull it back to the tensors that represent the operator
+        # (returning it as is only fits an operator represented by one dense tensor)
+        matrix_args = ctx.saved_tensors[:-2]
+        if hasattr(ctx, "_linear_op"):
+            linear_op = ctx._linear_op
+        else:
+            linear_op = ctx.representation_tree(*matrix_args)
+        eye = torch.eye(dL_dM.size(-1), dtype=dL_dM.dtype, device=dL_dM.device).expand_as(dL_dM)
+        arg_grads = linear_op._bilinear_derivative(dL_dM, eye)
+        output = tuple([None] * 6 + list(arg_grads))
 
         return output
